@@ -462,7 +462,8 @@ def x7_shutdown_flag(F, R):
     for b in F.bodies.values():
         if b.get('impl_adt') != MGR or not F.handwritten(b) or b['kind'] != 'AssocFn':
             continue
-        sg = supergraph(F, b['id'], tag='flat', max_depth=0)
+        # (the removal may sit in a private helper of the manager: inlined, so that the caller's guard is seen)
+        sg = supergraph(F, b['id'], opaque=lambda t, bb: not (bb.get('impl_adt') == MGR and not bb.get('pub') and F.handwritten(bb) and bb['kind'] == 'AssocFn'), tag='x7i')
         S = sg.sym
         for c in sg.calls(lambda d: d.get('fn', '').startswith('alloc::vec::Vec::') and d['fn'].rsplit('::', 1)[1] in ('swap_remove', 'remove')):
             for swid, vals, succ in sg.guards_of(c.id):
@@ -568,6 +569,8 @@ def run(F, R):
                             'to this guest\'s CID: packets matching no known connection create state')
             elif meth in ('swap_remove', 'remove'):
                 idx = S.operand(n.id, n.d['args'][1])
+                if not b.get('pub') and b['kind'] == 'AssocFn' and strip_conv(idx)[0] == 'param' and n.ctx == 0:
+                    continue        # a private helper removing the index it is given: judged in its callers, where it is inlined
                 ok = derives_from(idx, lambda x: x[0] == 'call' and x[2] in lookups)
                 R.check(ok, 'X3', inst, site(sg, n), 'removes the index returned by the connection lookup',
                         'removes index %s, which is not the index the lookup returned for this connection' % fmt(idx)[:80])
